@@ -389,6 +389,26 @@ def run_shard(spec, rec):
             continue
         rec.case(("deepened", limit, mode, text), True)
         rec.feat("deepened-in-place:%s:%s->%s" % (mode, r1, r2))
+    # wide but shallow data: the limit is about nesting, however many elements there are side by side
+    for limit, width in ((1, 250), (2, 450), (3, 700), (5, 1500), (100, 12000)):
+        for mode in ("deterministic", "nondeterministic"):
+            if limit == 100 and str(spec["seed"]).split("/")[-1] != "0":
+                continue
+            inner = 0
+            for _ in range(limit - 1 if limit < 100 else 2):
+                inner = [inner]
+            doc = [D.deep_copy(inner) if limit > 1 else i for i in range(width)]
+            text = R.choice(["$..*", "$..[*]", "$..[0]"])
+            want = mon.want_sig(model.find(abn.ast(text), doc))
+            try:
+                with guard(240):
+                    r = run_case(rec, env_for(limit, mode), want, text, doc, limit, mode, False, width, 0, nesting(doc), R.getrandbits(32),
+                                 {"shape": "wide-shallow: array of %d elements, nesting %d" % (width, nesting(doc))})
+            except CaseTimeout:
+                rec.timeout("wide-shallow limit=%d width=%d %s" % (limit, width, mode))
+                continue
+            rec.case(("wide-shallow", limit, width, mode, text), True)
+            rec.feat("wide-shallow:%s:%s" % (mode, r))
     # adversarial choice script: always "visit the children later" (pure breadth-first) on a branching cycle
     for limit in (R.choice([13, 14]), R.choice([15, 16])):
         doc, kind, containers, branching = cyclic_shape(_random.Random(5))
